@@ -42,10 +42,14 @@ class ImmutableKnotVector(tuple):
                 return False
         if degree is None:
             degree = 0
-            while vector[degree] == vector[degree + 1]:
+            while degree + 1 < lenght and vector[degree] == vector[degree + 1]:
                 degree += 1
         npts = lenght - degree - 1
         if not degree < npts:
+            return False
+        if vector.count(vector[0]) != degree + 1:
+            return False
+        if vector.count(vector[-1]) != degree + 1:
             return False
         knots = ImmutableKnotVector.__get_unique(vector[degree : npts + 1])
         for knot in knots:
@@ -75,13 +79,19 @@ class ImmutableKnotVector(tuple):
         return instance
 
     def __add__(self, nodes: Tuple[float]) -> ImmutableKnotVector:
-        return self.__class__(sorted(list(self) + list(nodes)))
+        newvector = self.__class__(sorted(list(self) + list(nodes)))
+        if newvector.limits != self.limits:
+            raise ValueError("Cannot insert nodes outside the interval")
+        return newvector
 
     def __sub__(self, nodes: Tuple[float]) -> ImmutableKnotVector:
         lista = list(self)
         for node in nodes:
             lista.remove(node)
-        return self.__class__(lista)
+        newvector = self.__class__(lista)
+        if newvector.limits != self.limits:
+            raise ValueError("Cannot remove the end knots")
+        return newvector
 
     def __or__(self, other: ImmutableKnotVector) -> ImmutableKnotVector:
         other = ImmutableKnotVector(other)
